@@ -15,7 +15,7 @@ use quandary::db::{HashMapTreeZone, Zone};
 use quandary::rr::{Ttl, Type};
 use qvlib::qd::{qname, rdata, wn};
 use qvlib::wire::{self, c, t, WName};
-use qvlib::{catch, hex, json, panic_key, unhex, Ctx, Local, Value};
+use qvlib::{catch, json, panic_key, Ctx, Local, Value};
 
 use crate::refmodel::{is_wildcard, RefStore, Resolved, Rr};
 
